@@ -34,7 +34,7 @@ ASSUMPTIONS = [
     "container objects (object streams, xref streams) are defined objects and expected in get_objids()",
     "damage = startxref / xref keyword / subsection header / entry format / entry offset; trailer damage is outside 'cross-reference table'",
 ]
-PROBES = ["history read under settings.STRICT", "chain of 260 to 1000 updates", "chain of more than 1000 updates", "free entry for a never-defined number", "cross-reference stream update without entries", "form:table", "form:stream", "form:hybrid", "packed objects", "override of packed by direct", "override of direct by packed", "multi-range Index", "nested getobj for indirect Length", "eviction happened", "caching off", "startxref boundary placed", "crlf eol", "cr-only eol", "bytes after %%EOF", "repository sample", "zero-width type field", "hybrid with free entries"]
+PROBES = ["object stream with more than 127 members", "object stream with 100 members", "history read under settings.STRICT", "chain of 260 to 1000 updates", "chain of more than 1000 updates", "free entry for a never-defined number", "cross-reference stream update without entries", "form:table", "form:stream", "form:hybrid", "packed objects", "override of packed by direct", "override of direct by packed", "multi-range Index", "nested getobj for indirect Length", "eviction happened", "caching off", "startxref boundary placed", "crlf eol", "cr-only eol", "bytes after %%EOF", "repository sample", "zero-width type field", "hybrid with free entries"]
 TIERS = {
     "quick": {"batches": 16, "runs": 1200, "budget_s": 45},
     "thorough": {"batches": 128, "runs": 2500, "budget_s": 900},
@@ -636,6 +636,56 @@ def run_sample(t, ctx, devs):
     return "; ".join(cfgs), data
 
 
+def run_big_objstm(t, ctx):
+    """Object streams with hundreds of members behind cross-reference streams with narrow fields (an index or offset
+    beyond 127, 255, 32767 is still that index or offset), in two revisions so that every member has an older
+    definition to fall back to by mistake."""
+    n = t.pick([100, 128, 129, 200, 256, 257, 400], "big.n")
+    w2 = t.pick([2, 3, 4], "big.w2")
+    w3 = 1 if n <= 256 else 2
+    ctx.probe("object stream with more than 127 members" if n > 127 else "object stream with 100 members")
+    fw = FileWriter(tape=None, wild=False)
+    ids = list(range(3, 3 + n))
+    model = {1: {b"Type": Name(b"Catalog"), b"Marker": 1}}
+    off1 = fw.add_object(1, model[1])
+    ent = {0: (None, 65535), 1: (off1, 0)}
+    for i in ids:
+        ent[i] = (fw.add_object(i, {b"Old": i}), 0)
+    prev = fw.xref_table(ent, {b"Size": ids[-1] + 1, b"Root": Ref(1, 0)})
+    # second revision: every object redefined inside one object stream
+    for i in ids:
+        model[i] = {b"New": i, b"S": Str(b"m%d" % i)}
+    sid = ids[-1] + 1
+    d, payload = object_stream([(i, model[i]) for i in ids])
+    d[b"Length"] = len(payload)
+    soff = fw.add_object(sid, Stream(d, payload))
+    entries = {sid: ("n", soff, 0)}
+    for k, i in enumerate(ids):
+        entries[i] = ("c", sid, k)
+    xid = sid + 1
+    if max(soff, fw.pos() + 64).bit_length() > 8 * w2:
+        w2 = 4
+    fw.xref_stream(xid, entries, {b"Size": xid + 1, b"Root": Ref(1, 0), b"Prev": prev}, widths=(1, w2, w3), flt=t.coin(50, 100, "big.flate"))
+    data = fw.getvalue()
+    devs = []
+    for caching in (True, False):
+        try:
+            doc = PDFDocument(PDFParser(BytesIO(data)), caching=caching)
+            order = t.shuffle(ids, "big.order")[:60] + [ids[0], ids[-1], ids[min(127, n - 1)], ids[min(128, n - 1)]]
+            for i in order:
+                mism = []
+                match(model[i], doc.getobj(i), {}, "obj%d" % i, mism)
+                for path, k, detail, known in mism[:1]:
+                    devs.append(Dev("C02:getobj:wrong-%s" % k, "at %s: %s; member %d of an object stream with %d members, /W [1 %d %d] caching=%s" % (path, detail, i - 3, n, w2, w3, caching)))
+        except Exception as e:
+            devs.append(Dev("C02:bigobjstm:raise:%s@%s" % (type(e).__name__, where(e)), "%r; object stream with %d members, /W [1 %d %d] caching=%s" % (e, n, w2, w3, caching)))
+    seen = {}
+    for dv in devs:
+        seen.setdefault(dv.sig, dv)
+    t.note((n, w2, w3))
+    return Outcome(list(seen.values()), scen=repr((n, w2, w3)), nontrivial=True, sample={"mode": "big-object-stream", "members": n, "W": [1, w2, w3], "file_bytes": len(data)})
+
+
 def run_long_chain(t, ctx):
     """Hundreds to over a thousand incremental updates, each redefining a few of a handful of objects, in classic and
     stream form: the newest definition of every object still wins, and none is lost."""
@@ -695,6 +745,8 @@ def run(tape, ctx, item=None):
         return Outcome(list(seen.values()), scen=repr((len(data), cfg)), nontrivial=True, sample={"mode": "sample", "config": cfg})
     if t.coin(1, 300, "mode.longchain"):
         return run_long_chain(t, ctx)
+    if t.coin(1, 250, "mode.bigobjstm"):
+        return run_big_objstm(t, ctx)
     if t.coin(15, 100, "mode.damage"):
         cfg, bad = run_damage(t, ctx, devs)
         seen = {}
